@@ -99,7 +99,7 @@ func TestConcurrent(t *testing.T) {
 		fp1 := globalsFingerprint()
 		for i := lo; i < hi; i++ {
 			a, c := alone[i-lo], conc[i-lo]
-			em.Emit(i+1, "Begin", map[string]any{"x": plan[i].ID, "sig": plan[i].Signal, "a": -1, "b": 9, "l": []any{}})
+			em.Emit(i+1, "Begin", map[string]any{"x": plan[i].ID, "sig": plan[i].Signal, "a": -1, "b": 0, "flag": 1, "l": []any{}})
 			n := max(len(a.Oc), len(c.Oc))
 			for k := 0; k < n; k++ {
 				ao, co := "missing", "missing"
